@@ -44,11 +44,14 @@ def run(ctx):
     ctx.rule('CONSTRUCT', 'flip contexts are constructed only by the validated builders')
     ctx.rule('TXN', 'flip entry points and kernel layers are clean on failure')
     ctx.rule('HASHCANON', 'every simplex hash in the flip code is computed over the u64-sorted key sequence')
+    ctx.rule('POSTFLIP', 'a flip layer reports success only behind neighbour wiring, removal of the old cells and the '
+                         'coherent-orientation normalisation')
     for cfg in ctx.cfgs:
         prog = ctx.prog(cfg)
         mod = ctx.mod(cfg)
         _hashcanon(ctx, cfg, prog, mod)
         lv = gate.Leaves(prog)
+        _postflip(ctx, cfg, prog, lv)
         kb = ctx.anchor(cfg, KERNEL)
         if kb is None:
             continue
@@ -228,6 +231,41 @@ def _inner_variant(body, e):
 HASHFN = 'core::util::hashing::stable_hash_u64_slice'
 CANON = F + 'sorted_vertex_key_values'
 SORTS = ('sort', 'sort_unstable')
+
+
+POSTFLIP_LEAVES = ['core::algorithms::incremental_insertion::wire_cavity_neighbors', T + 'remove_cells_by_keys',
+                   T + 'normalize_coherent_orientation']
+
+
+def _postflip(ctx, cfg, prog, lv):
+    """POSTFLIP: each new cell is made geometrically positive on its own; agreement with the cells around the
+    cavity (which may be stored with the other sign after an earlier non-convex flip) is established only by the
+    normalisation pass that follows, and adjacency only by the wiring.  Every Ok exit of each flip layer lies behind
+    the success edge of each of them, for every k (must-pass-through, no condition)."""
+    n = 0
+    for q in sorted(FLIP_LAYER):
+        b = prog.bodies.get(q)
+        if b is None:
+            continue
+        n += 1
+        site = '%s:%d' % (b.file, b.line)
+        if q != KERNEL:
+            # the k=1 layers wrap the kernel (vertex insertion / removal around it): they must still go through it
+            bodies = [b] + [prog.bodies[c] for c in prog.children.get(q, []) if c in prog.bodies]
+            via = sorted({(t.resolved or t.callee) for b_ in bodies for _, t in b_.calls()
+                          if any(lv.covers(n_, {KERNEL}, 'any') for n_ in (t.resolved, t.callee) if n_)})
+            ctx.ob('POSTFLIP', '%s|delegates' % q, cfg, bool(via),
+                   'delegates the move to the flip kernel through %s' % [v.rsplit('::', 1)[-1] for v in via] if via else
+                   'no call that reaches apply_bistellar_flip_with_k: the move is applied outside the checked kernel', site=site)
+            continue
+        for leaf in POSTFLIP_LEAVES:
+            r = gate.must_pass(prog, lv, b, {leaf}, mode='any')
+            detail = gate.describe(b, r)
+            if not r['ok']:
+                detail += ('; a flip can report success without %s: the structural level (neighbour symmetry / coherent '
+                           'orientation / no stale cells) is not re-established for that move' % leaf.rsplit('::', 1)[-1])
+            ctx.ob('POSTFLIP', '%s|%s' % (q, leaf.rsplit('::', 1)[-1]), cfg, r['ok'], detail, site=site)
+    ctx.floor('flip layers', 3, n, cfg)
 
 
 def _hashcanon(ctx, cfg, prog, mod):
